@@ -57,8 +57,9 @@ var (
 )
 
 func (p *BinaryProtocol) malloc(size int) ([]byte, error) {
+	// NOTICE: the size may come from hostile input
 	if size <= 0 {
-		panic(errors.New("invalid size"))
+		return nil, errors.New("invalid size")
 	}
 
 	l := len(p.Buf)
@@ -80,8 +81,9 @@ func (p *BinaryProtocol) malloc(size int) ([]byte, error) {
 
 // next ...
 func (p *BinaryProtocol) next(size int) ([]byte, error) {
+	// NOTICE: the size may come from hostile input
 	if size <= 0 {
-		panic(errors.New("invalid size"))
+		return nil, errors.New("invalid size")
 	}
 
 	l := len(p.Buf)
